@@ -108,37 +108,46 @@ package hseq
 //@   ensures one_entry_per_requested_type_in_order: result == [firsttype(all, rtypeof(A)), firsttype(all, rtypeof(B)), firsttype(all, rtypeof(C)), firsttype(all, rtypeof(D)), firsttype(all, rtypeof(E)), firsttype(all, rtypeof(F)), firsttype(all, rtypeof(G)), firsttype(all, rtypeof(H)), firsttype(all, rtypeof(I))]
 
 //@ func FMap1
+//@   inline
 //@   requires len(ts) >= 1
 //@   ensures ith_entry_to_ith_function: result == app($2, $1[0])
 
 //@ func FMap2
+//@   inline
 //@   requires len(ts) >= 2
 //@   ensures ith_entry_to_ith_function: result == app($2, $1[0]) && result1 == app($3, $1[1])
 
 //@ func FMap3
+//@   inline
 //@   requires len(ts) >= 3
 //@   ensures ith_entry_to_ith_function: result == app($2, $1[0]) && result1 == app($3, $1[1]) && result2 == app($4, $1[2])
 
 //@ func FMap4
+//@   inline
 //@   requires len(ts) >= 4
 //@   ensures ith_entry_to_ith_function: result == app($2, $1[0]) && result1 == app($3, $1[1]) && result2 == app($4, $1[2]) && result3 == app($5, $1[3])
 
 //@ func FMap5
+//@   inline
 //@   requires len(ts) >= 5
 //@   ensures ith_entry_to_ith_function: result == app($2, $1[0]) && result1 == app($3, $1[1]) && result2 == app($4, $1[2]) && result3 == app($5, $1[3]) && result4 == app($6, $1[4])
 
 //@ func FMap6
+//@   inline
 //@   requires len(ts) >= 6
 //@   ensures ith_entry_to_ith_function: result == app($2, $1[0]) && result1 == app($3, $1[1]) && result2 == app($4, $1[2]) && result3 == app($5, $1[3]) && result4 == app($6, $1[4]) && result5 == app($7, $1[5])
 
 //@ func FMap7
+//@   inline
 //@   requires len(ts) >= 7
 //@   ensures ith_entry_to_ith_function: result == app($2, $1[0]) && result1 == app($3, $1[1]) && result2 == app($4, $1[2]) && result3 == app($5, $1[3]) && result4 == app($6, $1[4]) && result5 == app($7, $1[5]) && result6 == app($8, $1[6])
 
 //@ func FMap8
+//@   inline
 //@   requires len(ts) >= 8
 //@   ensures ith_entry_to_ith_function: result == app($2, $1[0]) && result1 == app($3, $1[1]) && result2 == app($4, $1[2]) && result3 == app($5, $1[3]) && result4 == app($6, $1[4]) && result5 == app($7, $1[5]) && result6 == app($8, $1[6]) && result7 == app($9, $1[7])
 
 //@ func FMap9
+//@   inline
 //@   requires len(ts) >= 9
 //@   ensures ith_entry_to_ith_function: result == app($2, $1[0]) && result1 == app($3, $1[1]) && result2 == app($4, $1[2]) && result3 == app($5, $1[3]) && result4 == app($6, $1[4]) && result5 == app($7, $1[5]) && result6 == app($8, $1[6]) && result7 == app($9, $1[7]) && result8 == app($10, $1[8])
